@@ -326,7 +326,8 @@ def real_eval(case: Case, vals, linearize=True, prob_r=None, history=None):
             data = prob.check_partials(out_stream=None, method="fd", form="central", step=1e-6, step_calc="abs")
             d = data[r.path]
             for key, v in d.items():
-                J.setdefault(key, {})["J_fwd"] = np.array(v["J_fwd"])
+                if "J_fwd" in v:  # (pairs the component does not declare come without an analytic block)
+                    J.setdefault(key, {})["J_fwd"] = np.array(v["J_fwd"])
             # reference: own real-valued central differences (Richardson) through run_model
             def f(v):
                 for n in r.in_names:
